@@ -237,3 +237,25 @@ package policy
 // Condition slices are only appended to while building; their elements never change afterwards.
 //@ frozen elem:cell:func(result R, err error) bool
 //@ frozen elem:cell:func(A, B) bool
+
+// base setters
+//@ func (*BaseFailurePolicy).OnSuccess
+//@   builder
+//@   requires p != nil
+//@   ensures [C16.base.listener_registered_onsuccess] p.onSuccess == listener && p.onFailure == old(p.onFailure)
+//@   modifies p.onSuccess
+//@ func (*BaseFailurePolicy).OnFailure
+//@   builder
+//@   requires p != nil
+//@   ensures [C16.base.listener_registered_onfailure] p.onFailure == listener && p.onSuccess == old(p.onSuccess)
+//@   modifies p.onFailure
+//@ func (*BaseDelayablePolicy).WithDelay
+//@   builder
+//@   requires d != nil
+//@   ensures [C13.base.with_delay+C03.base.with_delay] d.Delay == delay && d.DelayFunc == old(d.DelayFunc)
+//@   modifies d.Delay
+//@ func (*BaseDelayablePolicy).WithDelayFunc
+//@   builder
+//@   requires d != nil
+//@   ensures [C13.base.with_delay_func+C03.base.with_delay_func] d.DelayFunc == delayFunc && d.Delay == old(d.Delay)
+//@   modifies d.DelayFunc
